@@ -134,27 +134,35 @@ def run(repo: Repo) -> Result:
         if isinstance(st, ast.Assign) and isinstance(st.targets[0], ast.Name):
             binds.setdefault(st.targets[0].id, []).append(st.value)
 
+    from .. import symb as _symb
+
     def clamped(e) -> bool:
-        """min(max(x, 0), length)   |   length if <v> is None else min(max(v, 0), length)"""
+        """normal form of  min(max(x, 0), length)  |  length if <c> else min(max(x, 0), length)
+        where <c> is an `is None` test (a *missing* limit) — argument order irrelevant"""
         if isinstance(e, ast.IfExp):
-            return is_name(e.body, "length") and isinstance(e.test, ast.Compare) and isinstance(e.test.ops[0], ast.Is) and clamped(e.orelse)
-        if isinstance(e, ast.Call) and is_name(e.func, "min") and len(e.args) == 2 and is_name(e.args[1], "length"):
-            inner = e.args[0]
-            return isinstance(inner, ast.Call) and is_name(inner.func, "max") and len(inner.args) == 2 and isinstance(inner.args[1], ast.Constant) and inner.args[1].value == 0
+            tst = e.test
+            is_none = isinstance(tst, ast.Compare) and len(tst.ops) == 1 and isinstance(tst.ops[0], ast.Is) and isinstance(tst.comparators[0], ast.Constant) and tst.comparators[0].value is None
+            return is_name(e.body, "length") and is_none and clamped(e.orelse)
+        if isinstance(e, ast.Call) and is_name(e.func, "min") and len(e.args) == 2 and any(is_name(a, "length") for a in e.args):
+            inner = next(a for a in e.args if not is_name(a, "length")) if not all(is_name(a, "length") for a in e.args) else None
+            return isinstance(inner, ast.Call) and is_name(inner.func, "max") and len(inner.args) == 2 and any(isinstance(a, ast.Constant) and a.value == 0 and not isinstance(a.value, bool) for a in inner.args)
         return False
 
-    isl = [c for c in calls(sl.node) if callee_name(c) == "islice"]
-    if len(isl) != 1 or len(isl[0].args) != 3:
-        res.add("C13-BOUNDS", sl.qual, "islice", "_slice must slice with islice(it, start, stop)", sl.file, sl.line)
+    try:
+        _summ = _symb.summarise(sl.node)
+    except _symb.Unsupported as e:
+        raise AnchorMissing(f"LoopExpression._slice is no longer straight-line code ({e}); re-derive C13-BOUNDS")
+    isl = []
+    for _c, e in _summ.returns:
+        e2 = ast.parse(_symb.norm(e), mode="eval").body
+        isl.extend(c for c in ast.walk(e2) if isinstance(c, ast.Call) and callee_name(c) == "islice")
+    if not isl or any(len(c.args) != 3 for c in isl) or len({text(c) for c in isl}) != 1:
+        res.add("C13-BOUNDS", sl.qual, "islice", "_slice must slice with one islice(it, start, stop)", sl.file, sl.line)
     else:
         for arg, which in ((isl[0].args[1], "start"), (isl[0].args[2], "stop")):
             res.ob(f"islice-{which}")
-            vals = binds.get(arg.id, []) if isinstance(arg, ast.Name) else []
-            if not vals or not all(clamped(v) for v in vals):
-                res.add("C13-BOUNDS", sl.qual, f"{which}-not-clamped:{text(arg)}", f"the islice {which} bound `{text(arg)}` is not provably within [0, length] (bound as {[text(v)[:40] for v in vals]}): a negative value raises ValueError and 0 must mean 'no items'", sl.file, isl[0].lineno)
-        stop_vals = binds.get(isl[0].args[2].id, []) if isinstance(isl[0].args[2], ast.Name) else []
-        if stop_vals and not all(isinstance(v, ast.IfExp) and text(v.test) == "stop is None" for v in stop_vals):
-            res.add("C13-BOUNDS", sl.qual, "stop-none", "only a missing limit (`stop is None`) may mean 'to the end'", sl.file, sl.line)
+            if not clamped(arg):
+                res.add("C13-BOUNDS", sl.qual, f"{which}-not-clamped", f"the islice {which} bound is not provably within [0, length] (normal form `{text(arg)[:160]}`): a negative value raises ValueError, 0 must mean 'no items', and only a missing limit (`is None`) may mean 'to the end'", sl.file, sl.line)
     # None tests
     watched = {"limit", "offset", "start", "stop", "start_", "stop_"}
     for f in (sl, repo.own_method(LE, "evaluate"), repo.own_method(LE, "evaluate_async")):
@@ -173,26 +181,48 @@ def run(repo: Repo) -> Result:
                 fb = n.values[1]
                 if not (isinstance(fb, ast.Constant) and fb.value == 0):
                     res.add("C13-NONE", f.qual, f"or-default:{text(n)[:30]}", f"{f.qual}: `{text(n)[:40]}` replaces a zero {n.values[0].id} by `{text(fb)[:20]}`", f.file, n.lineno)
-    t = text(sl.node)
+    # The window arithmetic as a symbolic normal form (sa/symb.py): every local is substituted
+    # by its definition, `+`/min/max operands are sorted and None-selections folded, so local
+    # renames, inlined temporaries and reordered independent statements do not matter — but
+    # computing the end from the *clamped* start, or the length from unclamped bounds, does.
+    from .. import symb
+
     res.ob("shape:_slice", 5)
-    need = {
-        "length": "length_ = max(stop_ - start_, 0)",
-        "stop": "stop = None if limit is None else limit + start",
-        "continue": "if offset == 'continue':\n    start = context.stopindex(offset_key)",
-        "store-stop": "context.stopindex(key=offset_key, index=stop_)",
-        "key": "offset_key = f'{self.identifier}-{self.iterable}'",
-        "reversed": "if self.reversed:\n    return (reversed(list(it)), length_)",
-        "return": "return (it, length_)",
-    }
-    flat = "\n".join(l.strip() if not l.startswith("    ") else l[4:] for l in t.splitlines())
-    flat2 = t.replace("        ", "    ")
-    for k, frag in need.items():
-        probe = frag.replace("\n    ", "\n        ")
-        if frag not in t and frag not in flat and frag not in flat2 and probe not in t:
-            # compare ignoring indentation
-            squeeze = lambda s: "".join(s.split())
-            if squeeze(frag) not in squeeze(t):
-                res.add("C13-SHAPE", sl.qual, k, f"_slice no longer contains `{frag}`", sl.file, sl.line)
+    try:
+        summ = symb.summarise(sl.node)
+    except symb.Unsupported as e:
+        raise AnchorMissing(f"LoopExpression._slice is no longer straight-line code ({e}); re-derive C13-SHAPE")
+    KEY = "f'{self.identifier}-{self.iterable}'"
+    START = f"(context.stopindex({KEY}) if offset == 'continue' else int(offset or 0))"
+    START_ = f"min(max({START}, 0), length)"
+    STOP_ = f"(length if limit is None else min(max(limit + {START}, 0), length))"
+    LEN = f"max({STOP_} - {START_}, 0)"
+    IT = f"islice(it, {START_}, {STOP_})"
+
+    def nf(src: str) -> str:
+        return symb.norm(ast.parse(src, mode="eval").body)
+
+    want_returns = {("self.reversed",): nf(f"(reversed(list({IT})), {LEN})"), ("not self.reversed",): nf(f"({IT}, {LEN})")}
+    got_returns = {tuple(c): symb.norm(e) for c, e in summ.returns}
+    for cond, want in want_returns.items():
+        got = got_returns.get(cond)
+        if got != want:
+            res.add(
+                "C13-SHAPE",
+                sl.qual,
+                f"window:{' and '.join(cond)}",
+                "_slice must return islice(it, clamp(start), clamp(start + limit) or length) and length max(stop_ - start_, 0), "
+                "with start = the stored stop index for `offset: continue` else int(offset or 0) — the end of the window is computed from the offset "
+                f"*as given*; normal form found: {got[:300] if got else sorted(got_returns)}",
+                sl.file,
+                sl.line,
+            )
+    if set(got_returns) - set(want_returns):
+        res.add("C13-SHAPE", sl.qual, "window:extra-path", f"_slice has an unexpected return path {sorted(set(got_returns) - set(want_returns))}", sl.file, sl.line)
+    want_eff = nf(f"context.stopindex(key={KEY}, index={STOP_})")
+    effs = [(c, symb.norm(e)) for c, e in summ.effects if callee_name(e) == "stopindex"]
+    if [(c, e) for c, e in effs] != [([], want_eff)]:
+        res.add("C13-SHAPE", sl.qual, "store-stop", f"every loop must store its (clamped) stop index under `identifier-iterable` unconditionally; found {[(c, e[:120]) for c, e in effs]}", sl.file, sl.line)
     order = [callee_name(c) for c in calls(sl.node) if callee_name(c) in ("islice", "reversed")]
     if order[:2] != ["islice", "reversed"]:
         res.add("C13-SHAPE", sl.qual, "reverse-after-slice", "`reversed` must be applied to the sliced items", sl.file, sl.line)
@@ -264,6 +294,9 @@ def selftest(repo: Repo):
     F = "liquid/builtin/tags/for_tag.py"
     T = "liquid/builtin/tags/tablerow_tag.py"
     return [
+        v("stop-from-clamped-start", L, "        stop = None if limit is None else limit + start\n\n        start_ = min(max(start, 0), length)\n", "        start_ = min(max(start, 0), length)\n        stop = None if limit is None else limit + start_\n", "C13-SHAPE"),
+        v("length-from-raw-bounds", L, "        length_ = max(stop_ - start_, 0)", "        length_ = max(stop_ - start, 0)", "C13-SHAPE"),
+        lambda: Variant("equivalent-rewrite-is-silent", text_edit(repo, L, "        stop = None if limit is None else limit + start\n\n        start_ = min(max(start, 0), length)\n        stop_ = length if stop is None else min(max(stop, 0), length)\n        length_ = max(stop_ - start_, 0)\n\n        context.stopindex(key=offset_key, index=stop_)\n        it = islice(it, start_, stop_)\n", "        lo = min(length, max(0, start))\n        hi = length if limit is None else min(max(start + limit, 0), length)\n        length_ = max(hi - lo, 0)\n\n        context.stopindex(key=offset_key, index=hi)\n        it = islice(it, lo, hi)\n", 1), "C13-", silent=True),
         v("stop-or-length", L, "        stop_ = length if stop is None else min(max(stop, 0), length)", "        stop_ = min(stop or length, length)", "C13-"),
         v("start-unclamped", L, "        start_ = min(max(start, 0), length)", "        start_ = min(start, length)", "C13-BOUNDS"),
         v("limit-truthiness", L, "        stop = None if limit is None else limit + start", "        stop = limit + start if limit else None", "C13-"),
